@@ -22,7 +22,7 @@ CLAIMED['C14'] = ('bounded symbolic execution of clang LLVM IR of the index func
     'Row-major position formula for all extents; Morton pdep == portable == reference bit interleave for all coordinates below 2^floor(64/N), N=1..4; Hilbert bijection/origin/adjacency on 2^k squares, k<=6 quick, <=8 thorough.', '3.C14')
 
 CLAIMED['C02'] = ('bounded symbolic execution of clang LLVM IR of each layer over an uninterpreted-function probe backend + z3 (bit-vectors, IEEE FP theory)',
-    'Per-layer functional obligations for every coordinate and configuration value with N and M independent in 1..4: the layer queries the (uninterpreted) backend exactly at its one-line coordinate map and returns its one-line value map, bit for bit; because the backend is uninterpreted the result cannot depend on what lies beneath, which gives composition by induction (stated).', '3.C02')
+    'Per-layer functional obligations for every coordinate and configuration value with N and M independent in 1..4: the layer queries the (uninterpreted) backend exactly at its one-line coordinate map and returns its one-line value map, bit for bit; because the backend is uninterpreted the result cannot depend on what lies beneath, which gives composition by induction (stated). In addition every wrapper is checked directly above every shipped layer kind over real array storage (pairwise adjacency), and the vector type itself (constructors, access, iteration) is a primitive obligation.', '3.C02')
 CLAIMED['C10'] = ('bounded symbolic execution of clang LLVM IR of clamp over the probe backend + z3 (bit-vectors, IEEE FP theory)',
     'For all coordinates of int/unsigned/size_t/float/double (extremes and infinities included, NaN excluded) and all boxes lo<=hi: one backend query at the component-wise clamp, its value returned; N,M in 1..4.', '3.C10')
 CLAIMED['C11'] = ('bounded symbolic execution of clang LLVM IR of backup over the probe backend + z3',
